@@ -129,8 +129,10 @@ def run(run: common.Run):
                 m = b.corr_mask
                 rel = np.nanmax(np.abs(res.corr[:, m] - ecorr[:, m]) / np.maximum(np.abs(ecorr[:, m]), 1e-6)) if m.any() else 0
                 r2b, r2r = b.param[2 * nbp:], res.param[2 * nbp:]
-                dr2 = np.nanmax(np.abs(r2b - r2r)) if np.isfinite(r2b).any() else 0
-                if rel > 2e-4 or dr2 > 5e-2:  # R2 is a float32 cancellation-prone expansion: loose for general factors
+                # R2 is a float32 cancellation-prone expansion (and can be -500 for a poor gain-only fit): loose for general
+                # factors, relative to max(1, |R2|)
+                dr2 = np.nanmax(np.abs(r2b - r2r) / np.maximum(1.0, np.abs(r2b))) if np.isfinite(r2b).any() else 0
+                if rel > 2e-4 or dr2 > 5e-2:
                     run.fail(case, f'{tag}: corrected differs by rel {rel:.2e}, R2 by {dr2:.2e} from the scale law',
                              signature=dict(kind='scale-law-tol', which=tag))
         run.sample(dict(case={k: case[k] for k in ('i', 'model', 'kernel', 'a', 'c', 'halvings', 'proc', 'thresh')},
